@@ -12,7 +12,7 @@ Lemma cmp_skip0_filter : forall q p, cmp_skip0 p q = true -> filter nz p = filte
 Proof.
   induction q as [|d q IH]; intros p H.
   - destruct p; [reflexivity | discriminate].
-  - destruct p as [|c p]; [discriminate|]. cbn [cmp_skip0] in H.
+  - destruct p as [|c p]; [discriminate|]. cbn [cmp_skip0] in H; unfold src_compare_skip_byte in H.
     destruct (Z.eqb_spec c d) as [->|N]; cbn [negb andb] in H.
     + cbn [filter]. rewrite (IH p H). reflexivity.
     + destruct (Z.eqb_spec c 48) as [->|N2]; [|discriminate].
@@ -23,7 +23,7 @@ Qed.
 Lemma cmp_skip0_length : forall q p, cmp_skip0 p q = true -> (length q <= length p)%nat.
 Proof.
   induction q as [|d q IH]; intros p H; [cbn; lia|].
-  destruct p as [|c p]; [discriminate|]. cbn [cmp_skip0] in H.
+  destruct p as [|c p]; [discriminate|]. cbn [cmp_skip0] in H; unfold src_compare_skip_byte in H.
   destruct (negb (c =? d) && (c =? 48)).
   - destruct p as [|c' p]; [discriminate|]. destruct (c' =? d); [|discriminate].
     apply IH in H. cbn [length]. lia.
@@ -276,4 +276,117 @@ Proof.
   rewrite (match_names_abbrev wday_names (all_long_spec _ A) (pairs_differ_spec _ B) (Z.to_nat w) rest)
     by (try apply all_alpha_spec; try assumption; rewrite L; lia).
   rewrite Z2Nat.id by lia. reflexivity.
+Qed.
+
+(* ------------------------------------------------------------------ I: a format with names reads back what it prints.
+   names_fmt_ok: %Y %m %d %% %B %A and non-blank literals anywhere; an ABBREVIATED name (%b %h %a) only where
+   no letter can follow it - at the end, before a non-letter literal, or before a number.  (Without
+   that restriction the statement is false: strptime reads the full name first, see
+   abbreviation_before_letters_refuted in Properties_C14.v.) *)
+Definition starts_clean (f : list item) : Prop :=
+  match f with
+  | [] => True
+  | ILit c :: _ => is_alpha c = false
+  | IDir c :: _ => c = 89 \/ c = 109 \/ c = 100
+  | IBad :: _ => False
+  end.
+
+Fixpoint names_fmt_ok (f : list item) : Prop :=
+  match f with
+  | [] => True
+  | ILit c :: f' => is_space c = false /\ names_fmt_ok f'
+  | IDir c :: f' =>
+      (c = 89 \/ c = 109 \/ c = 100 \/ c = 37 \/ c = 66 \/ c = 65 \/
+       ((c = 98 \/ c = 104 \/ c = 97) /\ starts_clean f')) /\ names_fmt_ok f'
+  | IBad :: _ => False
+  end.
+
+Definition has_mon (f : list item) : bool := has_dir 109 f || has_dir 98 f || has_dir 66 f || has_dir 104 f.
+
+Definition set_fields_n (f : list item) (t : tm) (y m d : Z) : tm :=
+  mkTm (if has_dir 89 f then y - 1900 else tm_year t)
+       (if has_mon f then m - 1 else tm_mon t)
+       (if has_dir 100 f then d else tm_mday t).
+
+Lemma digit_nonalpha v : is_alpha (digit v) = false.
+Proof.
+  pose proof (digit_range v) as R. unfold is_alpha.
+  destruct (Z.leb_spec 65 (digit v)), (Z.leb_spec (digit v) 90), (Z.leb_spec 97 (digit v)), (Z.leb_spec (digit v) 122);
+    cbn; try reflexivity; lia.
+Qed.
+
+Lemma strftime_head_clean f y m d w :
+  starts_clean f -> strftime f y m d = Some w -> no_alpha_head w.
+Proof.
+  destruct f as [|[c|c|] f]; cbn [starts_clean strftime]; intros C S.
+  - injection S as <-. exact I.
+  - destruct (strftime f y m d); [|discriminate]. injection S as <-. exact C.
+  - destruct (fmt_dir c y m d) as [a|] eqn:A; [|discriminate].
+    destruct (strftime f y m d); [|discriminate]. injection S as <-.
+    destruct C as [->|[->| ->]]; cbn [fmt_dir Z.eqb Pos.eqb] in A; injection A as <-; cbn [digits4 digits2 app no_alpha_head];
+      apply digit_nonalpha.
+  - contradiction.
+Qed.
+
+Ltac fields_eq f :=
+  unfold set_fields_n, has_mon, has_dir; cbn [existsb is_dir Z.eqb Pos.eqb tm_year tm_mon tm_mday];
+  destruct (existsb (is_dir 89) f), (existsb (is_dir 109) f), (existsb (is_dir 98) f), (existsb (is_dir 66) f),
+    (existsb (is_dir 104) f), (existsb (is_dir 100) f); reflexivity.
+
+Local Opaque firstn.
+
+Lemma strptime_strftime_names f : forall y m d w t,
+  names_fmt_ok f -> 0 <= y <= 9999 -> 1 <= m <= 12 -> 1 <= d <= 31 -> 0 <= boost_day_of_week y m d < 7 ->
+  strftime f y m d = Some w -> strptime f w t = POk (set_fields_n f t y m d) [].
+Proof.
+  induction f as [|i f IH]; intros y m d w t Hok Hy Hm Hd Hw S.
+  - cbn in S. injection S as <-. destruct t. reflexivity.
+  - destruct i as [c|c|]; cbn [names_fmt_ok] in Hok; [| |contradiction]; destruct Hok as [Hi Hok].
+    + cbn [strftime] in S. destruct (strftime f y m d) as [w'|] eqn:S'; [|discriminate]. injection S as <-.
+      cbn [strptime]. rewrite Hi. cbn [match_char]. rewrite Z.eqb_refl.
+      rewrite (IH y m d w' t Hok Hy Hm Hd Hw S'). f_equal; fields_eq f.
+    + cbn [strftime] in S. destruct (fmt_dir c y m d) as [a|] eqn:A; [|discriminate].
+      destruct (strftime f y m d) as [w'|] eqn:S'; [|discriminate]. injection S as <-.
+      destruct Hi as [ -> | [ -> | [ -> | [ -> | [ -> | [ -> | [[ -> | [ -> | -> ]] Cl]]]]]]];
+        cbn [fmt_dir Z.eqb Pos.eqb orb] in A; injection A as <-; cbn [strptime Z.eqb Pos.eqb orb].
+      * rewrite get_number_digits4 by lia. rewrite (IH y m d w' _ Hok Hy Hm Hd Hw S'). f_equal; fields_eq f.
+      * rewrite get_number_digits2 by lia. rewrite (IH y m d w' _ Hok Hy Hm Hd Hw S'). f_equal; fields_eq f.
+      * rewrite get_number_digits2 by lia. rewrite (IH y m d w' _ Hok Hy Hm Hd Hw S'). f_equal; fields_eq f.
+      * cbn [app match_char Z.eqb Pos.eqb]. rewrite (IH y m d w' t Hok Hy Hm Hd Hw S'). f_equal; fields_eq f.
+      * rewrite read_month_full by exact Hm. rewrite (IH y m d w' _ Hok Hy Hm Hd Hw S'). f_equal; fields_eq f.
+      * rewrite read_wday_full by exact Hw. rewrite (IH y m d w' t Hok Hy Hm Hd Hw S'). f_equal; fields_eq f.
+      * rewrite read_month_abbrev by (try exact Hm; eapply strftime_head_clean; eassumption).
+        rewrite (IH y m d w' _ Hok Hy Hm Hd Hw S'). f_equal; fields_eq f.
+      * rewrite read_month_abbrev by (try exact Hm; eapply strftime_head_clean; eassumption).
+        rewrite (IH y m d w' _ Hok Hy Hm Hd Hw S'). f_equal; fields_eq f.
+      * rewrite read_wday_abbrev by (try exact Hw; eapply strftime_head_clean; eassumption).
+        rewrite (IH y m d w' t Hok Hy Hm Hd Hw S'). f_equal; fields_eq f.
+Qed.
+
+Lemma parse_names_roundtrip raw cur y m d w :
+  names_fmt_ok (lex_fmt raw) ->
+  has_dir 89 (lex_fmt raw) = true -> has_mon (lex_fmt raw) = true -> has_dir 100 (lex_fmt raw) = true ->
+  valid_ymd y m d -> 1400 <= y <= 9999 ->
+  format_date raw (boost_day_number y m d) = Some w ->
+  parse_date [raw] cur w = DOk (boost_day_number y m d).
+Proof.
+  intros Hok HY Hm Hd V Hy F. pose proof (days_in_month_range y m) as Hr.
+  unfold parse_date, readers_for, conv_for, src_input_format_pushes_front, src_input_format_disables_conversion.
+  cbn [rev map app parse_mask]. unfold parse_routine, src_tm_year_base, src_tm_mday_preset.
+  unfold format_date, format_dn in F. rewrite boost_roundtrip in F by exact V.
+  destruct (strftime (lex_fmt raw) y m d) as [w0|] eqn:S; [|discriminate].
+  destruct (Z.ltb_spec 126 (Z.of_nat (length w0))) as [L|L]; [discriminate|]. injection F as <-.
+  assert (L2 : (src_max_date_len <? Z.of_nat (length w0)) = false)
+    by (apply Z.ltb_ge; unfold src_max_date_len; lia).
+  rewrite L2. cbn [mk_reader r_items r_raw].
+  destruct V as [Vm Vd].
+  assert (Hw : 0 <= boost_day_of_week y m d < 7)
+    by (rewrite boost_day_of_week_correct by exact Vm; apply weekday_range).
+  rewrite (strptime_strftime_names _ y m d w0 _ Hok ltac:(lia) ltac:(lia) ltac:(lia) Hw S).
+  unfold set_fields_n. rewrite HY, Hm, Hd. cbn [tm_year tm_mon tm_mday].
+  replace (y - 1900 + 1900) with y by ring. replace (m - 1 + 1) with m by ring.
+  rewrite mk_date_ok by (try split; lia).
+  unfold format_dn. rewrite boost_roundtrip by (split; lia). rewrite S.
+  destruct (Z.ltb_spec 126 (Z.of_nat (length w0))); [lia|].
+  rewrite cmp_refl. cbn [negb]. rewrite (lex_has_year raw HY). reflexivity.
 Qed.
